@@ -2,7 +2,7 @@
    Theorem for the bit-exact model of mpf_mul; the accuracy certificate that the correspondence
    check evaluates on every other function's result is characterised here.  Statements only. *)
 From Coq Require Import ZArith List Bool.
-From Mpir Require Import Word DivDefs MpfDefs MpfProofs.
+From Mpir Require Import MpfAddDefs MpfAddProofs Word DivDefs MpfDefs MpfProofs.
 Import ListNotations.
 Local Open Scope Z_scope.
 
@@ -32,6 +32,49 @@ Print Assumptions C13_certificate.
 Theorem C13_prec_roundtrip : forall b, 0 <= b -> b <= bits_of_prec (prec_of_bits b) /\ 2 <= prec_of_bits b.
 Proof. exact prec_roundtrip. Qed.
 Print Assumptions C13_prec_roundtrip.
+
+(* ---- mpf_add (same-sign path of mpf/add.c), bit-exact model MpfAddDefs.v ---- *)
+(* for all well-formed operands of ANY lengths that do not have opposite signs and every destination
+   precision prec >= 1 limbs, p = mpf_get_prec = 64 (prec - 1): the result is well formed (at most
+   prec + 1 limbs, top limb non-zero), it is a truncation of the exact sum, its error is below
+   2^(2-p) relative, and it is exact when both operands lie in the window of prec limbs below the
+   larger exponent *)
+Theorem C13_mpf_add_accurate : forall prec u v pu pv,
+  1 <= prec -> mpf_wf pu u -> mpf_wf pv v -> same_sign u v ->
+  mpf_wf prec (mpf_add prec u v)
+  /\ Z.abs (fnum (mpf_add prec u v) * add_den u v) <= Z.abs (add_num u v * fden (mpf_add prec u v))
+  /\ acc_ok (bits_of_prec prec) (add_num u v) (add_den u v)
+            (fnum (mpf_add prec u v)) (fden (mpf_add prec u v)) = true
+  /\ (add_window prec u v ->
+      fnum (mpf_add prec u v) * add_den u v = add_num u v * fden (mpf_add prec u v)).
+Proof. exact mpf_add_accurate. Qed.
+Print Assumptions C13_mpf_add_accurate.
+
+(* the same with the bound 2^(1-p) (one bit better; mpf_add_ex_tight shows 2^(-p) fails) and
+   exactness whenever every limb that is cut off is zero *)
+Theorem C13_mpf_add_accurate_sharp : forall prec u v pu pv,
+  1 <= prec -> mpf_wf pu u -> mpf_wf pv v -> same_sign u v ->
+  mpf_wf prec (mpf_add prec u v)
+  /\ Z.abs (fnum (mpf_add prec u v) * add_den u v) <= Z.abs (add_num u v * fden (mpf_add prec u v))
+  /\ acc_ok (bits_of_prec prec + 1) (add_num u v) (add_den u v)
+            (fnum (mpf_add prec u v)) (fden (mpf_add prec u v)) = true
+  /\ (add_nothing_lost prec u v ->
+      fnum (mpf_add prec u v) * add_den u v = add_num u v * fden (mpf_add prec u v)).
+Proof. exact mpf_add_accurate_sharp. Qed.
+Print Assumptions C13_mpf_add_accurate_sharp.
+
+Theorem C13_mpf_add_wf : forall prec u v pu pv,
+  1 <= prec -> mpf_wf pu u -> mpf_wf pv v -> same_sign u v -> mpf_wf prec (mpf_add prec u v).
+Proof. exact mpf_add_wf. Qed.
+Print Assumptions C13_mpf_add_wf.
+
+(* no cancellation: non-zero result of the operands' sign, exponent max or max + 1 *)
+Theorem C13_mpf_add_sign : forall prec u v pu pv,
+  1 <= prec -> mpf_wf pu u -> mpf_wf pv v -> fM u <> 0 -> fM v <> 0 -> fneg u = fneg v ->
+  fM (mpf_add prec u v) <> 0 /\ fneg (mpf_add prec u v) = fneg u
+  /\ Z.max (fexp u) (fexp v) <= fexp (mpf_add prec u v) <= Z.max (fexp u) (fexp v) + 1.
+Proof. exact mpf_add_sign. Qed.
+Print Assumptions C13_mpf_add_sign.
 
 Example C13_nonvacuous :
   mpf_wf 3 (mkf false (B + 5) 2 1) /\ mpf_mul 2 (mkf false (B + 5) 2 1) (mkf true 3 1 1) = mkf true (3 * B + 15) 2 1
